@@ -54,8 +54,9 @@ type gvCfg struct {
 	SplitNum     uint32            `json:"splitNum"`
 	GenesisPos   []uint64          `json:"genesisInitPos"` // g1..g7
 	GenesisMax   uint32            `json:"genesisMaxAuthorize"`
-	PkOrder      []string          `json:"pkorder"` // peer names in ascending order of their hex public keys
-	Fund         map[string]uint64 `json:"fund"`    // ONT given to each actor
+	GenesisOwner []string          `json:"genesisOwners"` // owner (actor name) of g1..g7; default og
+	PkOrder      []string          `json:"pkorder"`       // peer names in ascending order of their hex public keys
+	Fund         map[string]uint64 `json:"fund"`          // ONT given to each actor
 	SetupCommits int               `json:"setupCommits"`
 }
 
@@ -131,7 +132,7 @@ func gvNewWorld(cfg gvCfg) *gvWorld {
 	var bookkeepers []keypair.PublicKey
 	for i := 0; i < 7; i++ {
 		name := fmt.Sprintf("g%d", i+1)
-		og := w.addr["og"]
+		og := w.addr[w.gowner(i)]
 		peers = append(peers, &config.VBFTPeerStakeInfo{Index: uint32(i + 1), PeerPubkey: w.pk[name],
 			Address: og.ToBase58(), InitPos: cfg.GenesisPos[i]})
 		bookkeepers = append(bookkeepers, pubs[w.pk[name]])
@@ -161,6 +162,13 @@ func gvNewWorld(cfg gvCfg) *gvWorld {
 	vhMust(st.InitLedgerStoreWithGenesisBlock(blk, bookkeepers))
 	w.store = st
 	return w
+}
+
+func (w *gvWorld) gowner(i int) string {
+	if i < len(w.cfg.GenesisOwner) && w.cfg.GenesisOwner[i] != "" {
+		return w.cfg.GenesisOwner[i]
+	}
+	return "og"
 }
 
 func (w *gvWorld) Close() {
@@ -244,8 +252,9 @@ func (w *gvWorld) setup() {
 		}
 	}
 	for i := 1; i <= 7; i++ {
-		p := &gov.ChangeMaxAuthorizationParam{PeerPubkey: w.pk[fmt.Sprintf("g%d", i)], Address: a["og"], MaxAuthorize: w.cfg.GenesisMax}
-		w.must(w.call(ovl, w.gc, gov.CHANGE_MAX_AUTHORIZATION, common.SerializeToBytes(p), a["og"]), "changeMaxAuthorization")
+		ow := a[w.gowner(i-1)]
+		p := &gov.ChangeMaxAuthorizationParam{PeerPubkey: w.pk[fmt.Sprintf("g%d", i)], Address: ow, MaxAuthorize: w.cfg.GenesisMax}
+		w.must(w.call(ovl, w.gc, gov.CHANGE_MAX_AUTHORIZATION, common.SerializeToBytes(p), ow), "changeMaxAuthorization")
 	}
 	for i := 0; i < w.cfg.SetupCommits; i++ {
 		w.must(w.call(ovl, w.gc, gov.COMMIT_DPOS, []byte{}, a["admin"]), "commitDpos")
@@ -528,7 +537,7 @@ func TestVerifGovTrace(t *testing.T) {
 	rng := vhRand()
 	owner := map[string]string{"p1": "o1", "p2": "o2"}
 	for i := 1; i <= 7; i++ {
-		owner[fmt.Sprintf("g%d", i)] = "og"
+		owner[fmt.Sprintf("g%d", i)] = w.gowner(i - 1)
 	}
 	holders := []string{"a1", "a2", "o1", "o2"}
 	names := []string{"Register", "SetMax", "Authorize", "Authorize", "Authorize", "UnAuthorize", "UnAuthorize", "Withdraw", "Withdraw",
